@@ -234,6 +234,33 @@ func TestC20Shapes(t *testing.T) {
 				t.Fatalf("VIOLATION C20: Reopen's error %q does not carry the failure of node %s\ncase: %s", err, c.name, d)
 			}
 		}
+		// several nodes fail in the same call: every node whose Reopen ran and failed must be carried by the error
+		if len(all) >= 2 {
+			for _, x := range all {
+				x.reopens.Store(0)
+				x.err = nil
+			}
+			failing := map[*cnt]error{}
+			for i, c := range all {
+				if rapid.IntRange(0, 2).Draw(t, fmt.Sprintf("multiFail%d", i)) == 0 {
+					failing[c] = fmt.Errorf("reopen of %s failed (unique sentinel, several failures)", c.name)
+					c.err = failing[c]
+				}
+			}
+			err := b.Reopen(context.Background())
+			for c, sentinel := range failing {
+				c.err = nil
+				if c.reopens.Load() == 0 {
+					continue // the walk stopped before it reached this node
+				}
+				if err == nil || (!errors.Is(err, sentinel) && !strings.Contains(err.Error(), sentinel.Error())) {
+					t.Fatalf("VIOLATION C20: %d nodes failed to reopen in one call; node %s was invoked and failed, but the returned error (%v) does not carry its failure\ncase: %s", len(failing), c.name, err, d)
+				}
+			}
+			if len(failing) >= 2 {
+				sec.Class("several_failing_nodes")
+			}
+		}
 		var cl []string
 		if aliased {
 			cl = append(cl, "nodes_sharing_an_address")
